@@ -50,7 +50,8 @@ ProjUnique(ents) ==
 \* that names that owner (subject) and carries that serial
 ProjNamed(ents) == \A i \in DOMAIN ents : PlaceOf(ents[i]) = <<ents[i].o, ents[i].s>>
 
-ActOf(e) == [k |-> e.ev, signer |-> e.signer, mo |-> e.mo, o |-> e.o, s |-> e.s, b |-> e.b, ok |-> e.ok]
+\* e.s of a revoke is the class the DECIMAL reading of the spelled serial names (decided by the check)
+ActOf(e) == [k |-> e.ev, signer |-> e.signer, mo |-> e.mo, o |-> e.o, s |-> e.s, b |-> e.b, sp |-> e.sp, ok |-> e.ok]
 
 StepConforms(r, e, r2) ==
     CASE e.ev = "create" -> /\ e.ok = CreateOK(r, e.signer, e.mo, e.o, e.s)
